@@ -47,17 +47,42 @@ def _cli(cmd, text, timeout_s):
         os.unlink(name)
 
 
-def discharge(ob, timeout_ms=None, second_opinion=True):
-    """Decide one obligation. Never maps unknown to a verdict."""
-    timeout_ms = timeout_ms or TIMEOUT_MS
-    t0 = time.time()
+def _z3_try(ob, ms):
     s = z3.Solver()
-    s.set("timeout", timeout_ms)
+    s.set("timeout", ms)
     for a in ob.assumptions:
         s.add(a)
     s.add(z3.Not(ob.goal))
     r = s.check()
+    return r, s
+
+
+def discharge(ob, timeout_ms=None, second_opinion=True):
+    """Decide one obligation. Never maps unknown to a verdict.
+
+    Order: z3 5.1 with a short budget, then (only for `unknown`) cvc5 and z3 4.8 on the SMT-LIB text,
+    then z3 5.1 with the full budget.  Only `unsat` is taken over from the CLI solvers: a refutation
+    needs a model that can be replayed."""
+    timeout_ms = timeout_ms or TIMEOUT_MS
+    t0 = time.time()
+    quick = min(10000, timeout_ms)
+    r, s = _z3_try(ob, quick)
     ob.backend = "z3-" + z3.get_version_string()
+    if r == z3.unknown and second_opinion:
+        text = ob.smt2()
+        for cmd, nm in (
+            (["/usr/bin/cvc5", "--tlimit=%d" % timeout_ms], "cvc5-1.0.3"),
+            (["/usr/bin/z3", "-T:%d" % max(1, timeout_ms // 2000)], "z3-4.8.12"),
+        ):
+            if not os.path.exists(cmd[0]):
+                continue
+            rr = _cli(cmd, text, timeout_ms / 1000 + 5)
+            if rr == "unsat":
+                ob.result, ob.backend = "unsat", nm
+                ob.time_s = time.time() - t0
+                return ob
+    if r == z3.unknown and timeout_ms > quick:
+        r, s = _z3_try(ob, timeout_ms)
     if r == z3.unsat:
         ob.result = "unsat"
     elif r == z3.sat:
@@ -66,19 +91,6 @@ def discharge(ob, timeout_ms=None, second_opinion=True):
     else:
         ob.result = "unknown"
         ob.reason = s.reason_unknown()
-        if second_opinion:
-            text = ob.smt2()
-            for cmd, nm in (
-                (["/usr/bin/cvc5", "--tlimit=%d" % timeout_ms], "cvc5-1.0.3"),
-                (["/usr/bin/z3", "-T:%d" % max(1, timeout_ms // 1000)], "z3-4.8.12"),
-            ):
-                if not os.path.exists(cmd[0]):
-                    continue
-                rr = _cli(cmd, text, timeout_ms / 1000 + 5)
-                if rr == "unsat":
-                    # a refutation needs a model we can replay, so only unsat is taken over
-                    ob.result, ob.backend = "unsat", nm
-                    break
     ob.time_s = time.time() - t0
     return ob
 
